@@ -55,6 +55,10 @@ def clauses_structure(c, H, P, timing=False, lifecycle=True, order=True):
         exp = [("ctor", cn) for cn in comps] + [("cb", f"{cn}.setup") for cn in comps if "setup" in hooks[cn]]
         c.reach("startup")
         c.prove(f"{P}.setup once-after-construction-before-anything", pre_sites == exp, info=dict(got=pre_sites, expected=exp))
+        for e in H.log.ev:
+            if e[0] == "setup_sees":
+                c.reach("setup-sees-others")
+                c.prove(f"{P}.setup after-all-components-exist-and-are-injected", all(ok for _, ok in e[2]), info=dict(component=e[1], sees=e[2]))
         all_sites = sites(H.log.ev)
         for cn in comps:
             if "setup" in hooks[cn]:
